@@ -1,16 +1,16 @@
 SPECIFICATION Spec
 CONSTANTS
-  Flavour = "ip"
-  MaxV = 3
+  Flavour = "coap"
+  MaxV = 2
   InitVers = {1}
   InitCaches = {0, 11}
-  MaxGen = 2
-  MaxTasks = 3
+  MaxGen = 1
+  MaxTasks = 2
   Listeners = {1, 3}
   OneShot = {3}
-  Regs = {"cfg", "avail"}
-  ReplyKinds = {"ok", "garbage"}
-  UserOps = {"list", "restore"}
+  Regs = {"cfg", "avail", "ev"}
+  ReplyKinds = {"ok"}
+  UserOps = {"list"}
   MonotoneDesc = FALSE
   Deviations = {}
 INVARIANT TypeOK
